@@ -595,7 +595,7 @@ let () =
                       | _ -> false, false, false, false) in
                     (* a wrong definite answer that a Box / BD_Shape / Octagonal_Shape component gives on its own (its
                        relation_with(Congruence) works on interval bounds and mishandles non-unit coefficients / rational bounds) *)
-                    let weak w = (match dom_name w with "Rational_Box" | "BD_Shape" | "Octagonal_Shape" -> true | _ -> false) in
+                    let weak w = (match dom_name w with "Rational_Box" -> true | _ -> false) in
                     (* when the product's definite answer is refuted by a witness point of the intersection, that point lies in
                        every component: a component that gave the same definite answer on its own is refuted by the same point *)
                     let tag_for cdj1 cdj2 = (if weak 1 && cdj1 then "[component-relation-cg " ^ dom_name 1 ^ "] "
